@@ -363,15 +363,55 @@ def _raises_only_from_the_wire(ev, outcome, exc, path, I):
     return True
 
 
+def _request_carries_the_arguments(op, argmap):
+    """Request side: the one request sent holds one batch item of the operation asked for whose
+    payload's fields are the argument values (argmap: argument -> payload property) - a legal value
+    such as 0 or '' is sent, never dropped."""
+    def t(ev, outcome, exc, path, I):
+        import z3
+        sends = [e for e in ev if e[0] == 'client.send']
+        if outcome == 'return' and len(sends) != 1:
+            return "%d requests sent for one call" % len(sends)
+        for e in sends:
+            items = I.getattr(e[1], 'batch_items')
+            if len(items) != 1:
+                return "the request carries %d batch items" % len(items)
+            o = I.getattr(I.getattr(items[0], 'operation'), 'value')
+            if getattr(o, 'name', None) != op:
+                return "the request's operation is %r, not %s" % (o, op)
+            pay = I.getattr(items[0], 'request_payload')
+            for a, pf in argmap.items():
+                want = I.ghost_globals.get('__arg_' + a)
+                got = I.getattr(pay, pf)
+                if got is want:
+                    continue
+                if got is None or want is None:
+                    same = (got is None) == (want is None) if not hasattr(got if want is None else want, 'sort') else None
+                    if same is None:      # an optional symbolic value against None: never here (none is a separate path)
+                        same = False
+                else:
+                    same = I.truth(I.models.equals(I, got, want))
+                if same is True or (same is not False and path.is_valid(same)):
+                    continue
+                return "the request's %s is not the argument %s" % (pf, a)
+        return True
+    return t
+
+
+REQUEST_SIDE = {
+    "rekey": ("REKEY", {'uuid': 'unique_identifier', 'offset': 'offset', 'template_attribute': 'template_attribute'}),
+    "check": ("CHECK", {'uuid': 'unique_identifier', 'usage_limits_count': 'usage_limits_count',
+                        'lease_time': 'lease_time'}),
+}
 DICT_OPS = [
-    ("rekey", dict(uuid='none', offset='none', template_attribute='none'),
+    ("rekey", dict(uuid=('oneof', 'none', 'str'), offset=('oneof', 'none', 'int32nat'), template_attribute='none'),
      {'unique_identifier': 'unique_identifier', 'template_attribute': 'template_attribute'}),
     ("derive_key", dict(object_type=('enum', 'kmip.core.enums.ObjectType'), unique_identifiers=('const', ['1']),
                         derivation_method=('enum', 'kmip.core.enums.DerivationMethod'),
                         derivation_parameters=('obj', 'kmip.core.attributes.DerivationParameters', {}),
                         template_attribute=('obj', 'kmip.core.objects.TemplateAttribute', {})),
      {'unique_identifier': 'unique_identifier', 'template_attribute': 'template_attribute'}),
-    ("check", dict(uuid='none', usage_limits_count='none',
+    ("check", dict(uuid='none', usage_limits_count=('oneof', 'none', 'int32nat'),
                    cryptographic_usage_mask=('oneof', 'none', ('const', [])), lease_time='none'),
      {'unique_identifier': 'unique_identifier', 'usage_limits_count': 'usage_limits_count', 'lease_time': 'lease_time'}),
     ("encrypt", dict(data='bytes', unique_identifier='none', cryptographic_parameters='none', iv_counter_nonce='none'),
@@ -396,6 +436,8 @@ c.returns(('obj', 'kmip.core.messages.messages.ResponseMessage', {'batch_items':
 c.may_raise_anything()
 c.trust("one request written, one response read and decoded (as above); at least one batch item; reason and message "
         "optional (a success carries neither), payload absent in a failure")
+contract(K + "_build_request_message", variant="dictionary-operations").inlined()
+contract(K + "_build_protocol_version", variant="dictionary-operations").inlined()
 for fn, kinds, fields in DICT_OPS:
     c = contract(K + fn).props('C19')
     c.use_variant("dictionary-operations")
@@ -403,6 +445,11 @@ for fn, kinds, fields in DICT_OPS:
     c.may_raise_anything()
     c.trace("dictionary-carries-exactly-what-the-first-batch-item-says", _dict_result(fields))
     c.trace("raises-only-when-the-wire-does", _raises_only_from_the_wire)
+    if fn in REQUEST_SIDE:
+        c.max_paths = 12000
+        for a in REQUEST_SIDE[fn][1]:
+            c.let('__arg_' + a, a)
+        c.trace("request-carries-the-arguments", _request_carries_the_arguments(*REQUEST_SIDE[fn]))
 
 
 for fn, op, kinds, fields in OPS:
